@@ -31,6 +31,14 @@ def month_ends_hours():
 
 
 def run_case(case):
+    if case.get("engine") == "B":
+        from vf import explore_physics as EP
+
+        EP.init_worker()
+        r = EP.run_chunk(dict(case, conformance=False), ("C19",))
+        r["outcomes"] = {"real_runs": r["evals"]}
+        r["states"], r["transitions"] = [], []
+        return r
     res = core.Result(evals=0)
     k = case["kind"]
     if k == "time_convert":
@@ -176,11 +184,17 @@ def main(run: core.Run, only=None):
     cases.append({"kind": "tables", "field": "irregular", "coords": [list(c) for c in FIELDS["irregular"]], "loads": "index", "pipe": "single", "H": 90.0, "load_years": [2024]})
     cases.append({"kind": "tables", "field": "1", "coords": [list(c) for c in FIELDS["1"]], "loads": "office", "pipe": "coaxial", "H": 100.0, "months": 36, "hourly_first": True, "load_years": [2020]})
     run.drive(cases, family="tables")
+    real = [{"engine": "B", "method": "nearsquare", "pipe": "single", "flow": "borehole", "load": "office"},
+            {"engine": "B", "method": "rowwise", "pipe": "coaxial", "flow": "system", "load": "mirror"}]
+    if not quick:
+        real += [{"engine": "B", "method": mth, "pipe": p, "flow": "borehole", "load": "spiky", "months": 37} for mth, p in
+                 (("rectangle", "double_series"), ("birectangle", "single"), ("bizoned", "double_parallel"), ("constrained", "single"))]
+    run.drive(real, family="real-runs")
     return run.finish(
         rule="(a) every hour of the year; (b) every quarter hour of the first 3 (quick) / 30 (thorough) years; (c) row builders on real "
              "GHE objects for field x load list x pipe type; one evaluation = one conversion or one table; non-trivial = first/last "
              "day of a month, month ends, every table",
         bounds={"hours": 8760, "years_for_hours_to_month": years, "fields": fields},
         assumptions=["non-leap calendar (datetime year 2019)", "the curve used in the simulation is captured at BaseGHE._simulate_detailed"],
-        require_outcomes=("hours_labelled", "quarter_hours_converted", "tables_built"),
+        require_outcomes=("hours_labelled", "quarter_hours_converted", "tables_built", "real_runs"),
     )
